@@ -10,7 +10,12 @@ from props import PROPS  # noqa: E402
 VERIF = os.path.dirname(HERE)
 props = [json.loads(l) for l in open(os.path.join(VERIF, 'properties.jsonl'))]
 
+BROKER_NOTE = 'Lean kernel + 3 standard axioms; the asyncio transport/event-loop contract is modelled by the event vocabulary (and implemented by the harness fakes); SHA-1, os.urandom, the credential store are parameters of the model; the tie is the correspondence run of this check (online-generated histories on the real Server/Connection vs the model, action logs + registry + gauges compared).'
 TEXT = {
+    'C01': ('Theorems over ALL event histories of the broker model: C01.delivery_log (the PUBLISH frames written to a connection are exactly, in order, the accepted publishes listing it as recipient), exactly_entitled (recipients = connections subscribed and open at that moment, once each), publish_exact (what one accepted publish does to every action log), frame_carries, common_order (any two receivers see sub-sequences of one acceptance order). Invariant proof by a generic preservation principle over the model primitives (Lemmas/BrokerPres, BrokerReg, BrokerDeliv). Tie + failing-input search: broker engine with an independent spec-level shadow.', BROKER_NOTE),
+    'C03': ('Theorems over ALL histories: C03.accepted_sound / every_delivery_sound (every PUBLISH frame ever written names the ident its sender was authenticated as and a channel on that identity\'s publish list) and reject_publish (any other ident string or channel, in ANY state: ERROR + close for the sender, accepted log / registry / gauges / every other connection unchanged).', BROKER_NOTE),
+    'C04': ('Theorems over ALL histories and ALL continuations: C04.granted_only, recipients_granted (every recipient of every accepted publish had passed the subscribe ACL), no_publish_after_close (once closing — for any reason — no PUBLISH is ever written again, whatever the schedule of the closing window), forbidden_subscribe (ERROR + close).', BROKER_NOTE),
+    'C09': ('Theorems over ALL histories and ALL continuations: C09.lost_forgets (after connection_lost in ANY state the record is unregistered, holds no subscription, is in no registry entry), lost_stable / unregistered_stable (stays so under every later event: late verdicts, deadline timers, other traffic), others_unaffected, unregistered_forgotten (covers the broker-forced loss).', BROKER_NOTE),
     'C05': ('Theorem C05.roundtrip: for EVERY in-range message of every opcode the builder succeeds, its 4-byte header equals the bytes produced, the stream decoder yields exactly that one frame and the reader returns the original fields; plus obligations that the extracted limit table admits everything the builders emit. Tie: constants regenerated from protocol.py each run + differential run of msg*/Unpacker/read* against the model.',
             'Lean kernel + 3 standard axioms; struct, the UTF-8 codec and SHA-1 are modelled (each compared with the implementation on every run); the correspondence generator bounds what the tie sees.'),
     'C06': ('Theorems C06.feed_chunks / feed_eq_drain_flatten / prompt / accounted: for every frame sequence and EVERY chunk list (induction on the chunk list, no bound) feeding yields exactly the frames, once, in order, each as soon as complete, leaving exactly the incomplete tail. Tie: exhaustive cut patterns of short streams and random cuts of long ones through the real Unpacker and the model.',
